@@ -33,6 +33,6 @@ def check(ctx):
     ctx.notes.append('events per operation: replay %s; recorded %s' % (cnt, cnt2))
     return ctx.finish(
         rule='cases: (i) every TLC-enumerated behaviour of the history machine with a products event after the constructor and after every operation, (ii) per shape (r,c) in 0..10^2 (every shape, twice in quick) a random pattern (random triplet order or raw arrays) with products on the fresh matrix and after each step of a rotated skeleton insert-new/scale/insert-new/transpose/overwrite/overwrite/scale/transpose/insert-new/overwrite (6 steps quick, 10 thorough), '
-             '(iii) empty/full/diagonal/last-column/first-row/empty-border patterns with several vectors and an explicit transpose, (iv) histories of 30 modifications with products after every one, (vi) from_vecs inputs with full columns / a single column / a single row stored descending, rotated and in random row order at sizes 10 and below, products after construction, overwrites, transpose, new entry, scale, (v) zero-centred histories (overwrite with 0, new 0 entry, scale by 0) with products after each step; main vectors have pairwise distinct non-zero components in -15..15, battery vectors with exact zeros as described, scale factors in {-3..3}; element types Rat and f64. '
+             '(iii) empty/full/diagonal/last-column/first-row/empty-border patterns with several vectors and an explicit transpose, (iv) histories of 30 modifications with products after every one, (vi) from_vecs inputs with full columns / a single column / a single row stored descending, rotated and in random row order at sizes 10 and below, products after construction, overwrites, transpose, new entry, scale, (ix) workspace wrap-around cases, all in the one harness process and thread: a large instance (many rows / many columns / full), and for every operation (transpose, multiply, transpose_multiply, get, to_dense, to_triplets/col_index, scale, insert overwrite/new, from_triplets, and all together) a use on the large instance, G-1 unlogged calls on small instances (<= 2 rows/columns, <= 3 entries) and the same use again, for G in {255,256,257,511,512,65535,65536,65537}; the large uses are ordinary events, the small calls are only counted (event gap), (v) zero-centred histories (overwrite with 0, new 0 entry, scale by 0) with products after each step; main vectors have pairwise distinct non-zero components in -15..15, battery vectors with exact zeros as described, scale factors in {-3..3}; element types Rat and f64. '
              'A products event is non-trivial if at least one of the vectors is non-empty; distinct = distinct (vectors, factor, results).',
         trusted=['harness projection of product vectors to integers and accumulation of the adjoint scalars (harness/src/suites/sparse.rs)', 'TLC', 'Dense.tla MatVec/Transpose as the dense reference'])
